@@ -79,7 +79,7 @@ func subsequence(order []string, keep map[string]bool) []string {
 }
 
 func C02(p *an.Prog, r *an.Report) {
-	r.Explanation = "Agreement with the I2P 0.9.67 common-structures layout, decided structurally against a frozen table in the checker: L1 — for each wire structure the order in which the serializer appends the fields, and the order in which a cursor-threading parser assigns them, both equal the specified field order (this catches a change applied consistently to both sides, which self-round-trip tests cannot); fixed-width fields are encoded and decoded with the specified width; L2 — ~55 layout constants (certificate types, lease sizes, 384/256/128 block sizes, limits of 16, flag bits, reserved masks, DatabaseStore prefixes, mapping delimiters) have their specified values; L3 — every place outside package data that reads an embedded mapping succeeds with no errors or only the benign trailing-data warning and fails for any other error, and its filter matches the reader's message; L4 — the key-block offsets and size tables are C01.R5 and C10. That every well-formed foreign encoding is accepted with exactly its field values needs an independent codec run and is not decided. L5: the trailing signature of the three offline-capable structures is typed by the transient key type (never destinationSigType) in parsers and constructors; L6: the mapping reader attempts every well-formed final pair down to 4 bytes. L8: key alignment inside the 384-byte block (the layout rule of C01.R5). L9: millisecond dates written by constructors are taken exactly (rule C15.A7)."
+	r.Explanation = "Agreement with the I2P 0.9.67 common-structures layout, decided structurally against a frozen table in the checker: L1 — for each wire structure the order in which the serializer appends the fields, and the order in which a cursor-threading parser assigns them, both equal the specified field order (this catches a change applied consistently to both sides, which self-round-trip tests cannot); fixed-width fields are encoded and decoded with the specified width; L2 — ~55 layout constants (certificate types, lease sizes, 384/256/128 block sizes, limits of 16, flag bits, reserved masks, DatabaseStore prefixes, mapping delimiters) have their specified values; L3 — every place outside package data that reads an embedded mapping succeeds with no errors or only the benign trailing-data warning and fails for any other error, and its filter matches the reader's message; L4 — the key-block offsets and size tables are C01.R5 and C10. That every well-formed foreign encoding is accepted with exactly its field values needs an independent codec run and is not decided. L5: the trailing signature of the three offline-capable structures is typed by the transient key type (never destinationSigType) in parsers and constructors; L6: the mapping reader attempts every well-formed final pair down to 4 bytes. L8: key alignment inside the 384-byte block (the layout rule of C01.R5). L9: millisecond dates written by constructors are taken exactly (rule C15.A7). L10: length arithmetic cannot wrap (C03.S4)."
 	r.Rule = "one obligation per structure and side (order), per fixed-width field (width), per constant, four per embedded-mapping site"
 	r.Trusted = []string{"the frozen layout table in checker/internal/rules/c02.go (MetaLeaseSet follows the layout the library documents)", "go/ssa"}
 	pairs := wirePairs(p)
@@ -187,6 +187,7 @@ func C02(p *an.Prog, r *an.Report) {
 	c02SigTypeSource(p, r, "C02.L5")
 	c01DistinctElements(p, r, "C02.L7") // a list of N encoded elements is read as N distinct elements
 	c15TimeScaling(p, r, "C02.L9")      // 8-byte dates carry the constructor's instant to the millisecond (same rule as C15.A7)
+	narrowArith(p, r, "C02.L10", nil)   // field lengths up to the specified maximum are accepted: length arithmetic cannot wrap (same rule as C03.S4)
 	c01Block(p, r, "C02.L8")            // key alignment inside the 384-byte key block, writer and all readers, every size pair
 	c11Threshold(p, r)                  // L6 (same rule as C11.M5): every well-formed final pair, down to 4 bytes, is read
 
